@@ -15,3 +15,7 @@ def main(tier, seed):
 
 RULE_EXTRA = 'extra stream: SetRandomInitialPoints / SetInitialPoints stay within their limits; tight x clip grid incl. the randomising clip=False (monitor only).'
 TRUSTED_EXTRA = ['clip=False (random re-draws) and Powell: monitor only']
+
+
+def replay(path):
+    return solvercheck.replay(PID, path)
